@@ -685,6 +685,8 @@ def check_helpers(case, ctx):
             linalg.vector_normalize(v1)
         kk = rng.randint(0, 20)
         linalg.binomial_coefficient(kk, rng.randint(0, kk + 2))
+        kb = rng.randint(21, 60)                      # factorials beyond 2^53: the quotient is still an exactly representable integer
+        linalg.binomial_coefficient(kb, rng.randint(0, min(kb, 8)))
         a = rng.choice([0.0, -3.0, 2.5, rng.uniform(-10, 10)])
         b = a + rng.choice([1.0, 0.5, 7.25, rng.uniform(0.01, 20)])
         nn = rng.randint(2, 40)
